@@ -179,7 +179,7 @@ def main():
         "setup_cmd": f"cd /verif && {ENV} sh tools/setup.sh",
         "hooks": {
             "guard": "verif",
-            "enable": "no source commit in /repo: hooks are in-package shim files under /verif/shims (//go:build verif) plus an instrumenting rewrite, both added at build time with `go build -tags verif -overlay`; /repo itself is never modified by a check",
+            "enable": "no source commit in /repo: hooks are in-package shim files under /verif/shims (//go:build verif), seam rewrites listed in /verif/shims/*/hooks.json (a call the harness cannot make happen, e.g. accepting a QUIC stream, is redirected to a function of the shim file; without a harness stream in the request context that function makes the original call) and an instrumenting rewrite of the synchronisation operations, all applied at build time with `go build -tags verif -overlay`; /repo itself is never modified by a check",
             "baseline_off_cmd": "cd /repo && GOFLAGS=-mod=mod GOPROXY=off go test -json -vet=off -count=1 -timeout 25m ./...",
             "source_commits": [],
             "add_only": True,
